@@ -227,6 +227,39 @@ mut("c14_measure_window_resets_bounds", ["C14"], C,
      """        self.reset_bounds()
         smallest_window, _ = self.get_first_window(dissimilarity, 1)
         smallest_window.get_best_alignment(dissimilarity)"""), note="fast-mode gamma changes the input's bounds")
+mut("c14_temp_modify_restore", ["C14"], C,
+    ("""        sizes = np.empty(self.num_annotators, dtype=np.int32)
+        for i, units in enumerate(self._annotations.values()):
+            sizes[i] = len(units)
+
+        disorders, possible_unitary_alignments = dissimilarity.valid_alignments(self)
+        # Definition of the integer linear program
+        n = len(disorders)
+        # Constraints matrix ("every unit must appear once and only once")
+        A = build_A(possible_unitary_alignments, sizes)
+
+        x = cp.Variable(shape=(n,), boolean=True)
+        try:
+            import cylp
+            cp.Problem(cp.Minimize(disorders.T @ x), [A @ x == 1]).solve(solver=cp.CBC)""",
+     """        sizes = np.empty(self.num_annotators, dtype=np.int32)
+        for i, units in enumerate(self._annotations.values()):
+            sizes[i] = len(units)
+
+        saved_bounds = self.bounds
+        self.reset_bounds()  # tight bounds while the candidates are enumerated
+        disorders, possible_unitary_alignments = dissimilarity.valid_alignments(self)
+        self.bound_inf, self.bound_sup = saved_bounds
+        # Definition of the integer linear program
+        n = len(disorders)
+        # Constraints matrix ("every unit must appear once and only once")
+        A = build_A(possible_unitary_alignments, sizes)
+
+        x = cp.Variable(shape=(n,), boolean=True)
+        try:
+            import cylp
+            cp.Problem(cp.Minimize(disorders.T @ x), [A @ x == 1]).solve(solver=cp.CBC)"""),
+    note="the best-alignment job changes the input's bounds and restores them: invisible after the call, visible to an observer thread")
 # ---------------- C15 ----------------
 mut("c15_uniform_categories", ["C15"], S,
     ("""                category = np.random.choice(self._categories, p=self._categories_weight)""",
